@@ -104,6 +104,9 @@ pub fn confs() -> [(&'static str, Confidence); 3] {
 fn val<F: Fl>(fl: &str, code: i64) -> F {
     let x: f64 = match fl {
         "geo" | "harm" if code <= 0 => match code { 0 => 0.0, -1 => -1.0, -2 => f64::NEG_INFINITY, _ => -0.0 },
+        // 50 + d: the fraction d / 10 (harmonic: 10 / d) - not exactly representable, sums and squares round
+        "harm" if (50..60).contains(&code) => 10.0 / (code - 50) as f64,
+        _ if (50..60).contains(&code) => (code - 50) as f64 / 10.0,
         "harm" => (2.0f64).powi(code as i32 - 1),            // 1, 2, 4, ...: exact reciprocals
         _ if code >= 100 => 16777216.0 * (code - 99) as f64,  // 2^24, 2^25-ish: f32 sums round, compensation != 0
         _ => code as f64,
